@@ -150,7 +150,7 @@ func Harness_C45_owner_key_gate() {
 	}
 	idx := uint32(nondetRange("operator.index", 4)) // 0 and 3 are never valid indices here
 	var ok bool
-	op := nondetRange("op", 7)
+	op := nondetRange("op", 9)
 	switch op {
 	case 0:
 		ok = call(addKeyByIndex, c45Args(c45ID, blobs[2], idx))
@@ -164,10 +164,36 @@ func Harness_C45_owner_key_gate() {
 		ok = call(revokeID, c45Args(c45ID, idx))
 	case 5:
 		ok = call(removeAttributeByIndex, c45Args(c45ID, []byte("attr"), idx))
+	case 6, 7:
+		// the legacy entry points name the operator by its public key instead of an index
+		who := nondetRange("operator.key", 3)
+		if op == 6 {
+			ok = call(addKey, c45Args(c45ID, blobs[2], blobs[who]))
+		} else {
+			ok = call(removeKey, c45Args(c45ID, blobs[nondetRange("target", 2)], blobs[who]))
+		}
+		idx = 0
+		if who < nkeys {
+			idx = uint32(who + 1)
+		}
+		if ok {
+			cover("c45-legacy-operation-accepted")
+			if who == 1 {
+				cover("c45-legacy-operation-by-second-key-accepted")
+				if !live[2] {
+					cover("c45-dbg-second-key-not-live")
+				}
+			}
+		}
 	default:
-		// registering the identity again (with a witnessed key) must fail in every state reached above
+		// registering the identity again (with a witnessed key) must fail in every state reached above,
+		// through either registration entry point
 		ctx.witness[2] = true
-		ok = call(regIdWithPublicKey, c45Args(c45ID, blobs[2]))
+		if nondetBool("with-attributes") {
+			ok = call(regIdWithAttributes, c45Args(c45ID, blobs[2], uint32(0)))
+		} else {
+			ok = call(regIdWithPublicKey, c45Args(c45ID, blobs[2]))
+		}
 		assert(!ok, "an-existing-or-revoked-identity-cannot-be-registered-again")
 	}
 	cache.Commit()
@@ -187,3 +213,99 @@ func Harness_C45_owner_key_gate() {
 }
 
 func c45RandHeight(p *overlaydb.MemDB) int { return 1 }
+
+// ---- group controllers ----
+
+var c45IDs = [][]byte{[]byte("did:ont:AAAA"), []byte("did:ont:BBBB"), []byte("did:ont:CCCC")}
+
+// Harness_C45_group: a group controller {members, threshold} (optionally with a nested sub-group) accepts a
+// signer list only if every signer entry names a stored, non-revoked key WITH authentication rights that was
+// witnessed, and the members that have such a signer reach the threshold.
+func Harness_C45_group() {
+	ctx := &c45Ctx{}
+	overlay := overlaydb.NewOverlayDB(&c45Store{})
+	cache := storage.NewCacheDB(overlay)
+	srvc := &native.NativeService{CacheDB: cache, ContextRef: ctx, Height: 1 << 30, Time: 100}
+	call := func(f func(*native.NativeService) ([]byte, error), args []byte) bool {
+		srvc.Input = args
+		_, err := f(srvc)
+		return err == nil
+	}
+	// three member identities with an authentication key each (blobs 0..2); the first member also has a key
+	// added later, without authentication rights (blob 3)
+	var blobs [][]byte
+	var keys []keypair.PublicKey
+	for i := 0; i < 4; i++ {
+		b := nondetBytes("key", 4)
+		k, err := keypair.DeserializePublicKey(b)
+		assume(err == nil)
+		for _, o := range keys {
+			assume(!keypair.ComparePublicKey(o, k))
+		}
+		for _, ob := range blobs {
+			assume(!bytes.Equal(ob, b))
+		}
+		blobs, keys = append(blobs, b), append(keys, k)
+		ctx.addrs = append(ctx.addrs, types.AddressFromPubKey(k))
+		ctx.witness = append(ctx.witness, true)
+	}
+	var keyRevoked [3]bool
+	_ = keyRevoked
+	for i, id := range c45IDs {
+		assert(call(regIdWithPublicKey, c45Args(id, blobs[i])), "group-setup-register")
+		if i == 0 {
+			assert(call(addKeyByIndex, c45Args(id, blobs[3], uint32(1))), "group-setup-second-key")
+			if nondetBool("member0.second-key-revoked") {
+				assert(call(removeKeyByIndex, c45Args(id, blobs[3], uint32(1))), "group-setup-revoke")
+				keyRevoked[0] = true
+			}
+		}
+	}
+	cache.Commit()
+	// the group: A, B and either C or the sub-group {C} with threshold 1
+	g := &Group{Threshold: uint(nondetRange("threshold", 4))}
+	g.Members = []interface{}{c45IDs[0], c45IDs[1]}
+	if nondetBool("nested") {
+		g.Members = append(g.Members, &Group{Members: []interface{}{c45IDs[2]}, Threshold: uint(nondetRange("inner.threshold", 2))})
+	} else {
+		g.Members = append(g.Members, c45IDs[2])
+	}
+	for i := range ctx.witness {
+		ctx.witness[i] = nondetBool("witness")
+	}
+	ns := nondetRange("nsigners", param("maxsigners")+1)
+	var signers []Signer
+	var good [3]bool // member has a signer entry with a live, witnessed authentication key
+	allGood := true
+	for i := 0; i < ns; i++ {
+		who := nondetRange("signer.id", 3)
+		idx := uint32(nondetRange("signer.index", 4))
+		signers = append(signers, Signer{Id: c45IDs[who], Index: idx})
+		ok := idx == 1 && ctx.witness[who] // only key 1 has authentication rights
+		good[who] = good[who] || ok
+		allGood = allGood && ok
+	}
+	accepted := verifyGroupSignature(srvc, g, signers)
+	cover("c45-group-returned")
+	if !accepted {
+		return
+	}
+	cover("c45-group-accepted")
+	assert(allGood, "every-signer-entry-is-a-live-witnessed-authentication-key")
+	cnt := uint(0)
+	for i := 0; i < 2; i++ {
+		if good[i] {
+			cnt++
+		}
+	}
+	if len(g.Members) == 3 {
+		if sub, ok := g.Members[2].(*Group); ok {
+			if (good[2] && sub.Threshold <= 1) || sub.Threshold == 0 {
+				cnt++
+			}
+		} else if good[2] {
+			cnt++
+		}
+	}
+	assert(cnt >= g.Threshold, "group-threshold-met-by-members-with-valid-signers")
+}
